@@ -73,6 +73,24 @@ def gen_prog(r, sid, tier):
                 e = ("env_clear",)
             ops.insert(r.below(len(ops) + 1), e)
     if r.chance(1, 4):
+        # toggling: one or two names set back and forth between two values (and back to the inherited one), so that a
+        # pair (name, value) given now is often one that was given -- and overridden -- before
+        import os as _os
+        inh = [(k, v) for k, v in _os.environb.items() if k in (b"HOME", b"LANG", b"USER", b"SHELL") and v]
+        names = [b"A", r.choice([b"B", b"A"])]
+        vals = [b"1", b"2"]
+        tog = []
+        for _ in range(3 + r.below(6)):
+            if inh and r.chance(1, 4):
+                k, v = r.choice(inh)
+                tog.append(("env", k, r.choice([v, b"tmp", v])))
+            elif r.chance(1, 6):
+                tog.append(("env_extend", [(r.choice(names), r.choice(vals)) for _ in range(1 + r.below(2))]))
+            else:
+                tog.append(("env", r.choice(names), r.choice(vals)))
+        pos = r.below(len(ops) + 1)
+        ops[pos:pos] = tog
+    if r.chance(1, 4):
         # input data on a handle that is then cloned: both handles must carry it
         pos = r.below(len(ops) + 1)
         ops.insert(pos, ("stdin", "data", X.rand_bytes(r, r.choice([1, 7, 300]), 0, 255)))
